@@ -178,7 +178,9 @@ func checkC04() fw.Check {
 													}
 													tag := fmt.Sprintf("%s reach=%v pos=%s responder=%s early=%v", id, reach, pos, rc, early)
 													mode := simnet.FilterOff
-													if strings.HasSuffix(df.name, "-ip-options") {
+													if strings.HasSuffix(df.name, "-ip-options") || fw.Hash32(id)%2 == 0 {
+														// half of the cases run with the capture filter the run installs enforced by the wire
+														// (the other half sees every frame, like a capture without kernel filtering)
 														mode = simnet.FilterEnforce
 													}
 													sc := scenario{tag: tag, v: v, win: w, b: b, mode: mode, model: func(e *simEnv) *pathModel {
@@ -227,6 +229,38 @@ func checkC04() fw.Check {
 				}
 			}
 			cases = append(cases, engineShapeCases("C04")...)
+			// single-probe runs (what every end-to-end probe is): a router's time-exceeded for THE probe and the target's
+			// proof of arrival for the same probe, in both orders, both well inside the timeout - the entry is the target's
+			for _, v := range refmatch.Variants {
+				for _, k := range []int{1, 6, 30} {
+					for _, order := range []string{"router-first", "target-first"} {
+						v, k, order := v, k, order
+						id := fmt.Sprintf("C04/single-probe/%s/ttl%d/%s", v.Name, k, order)
+						cases = append(cases, fw.Case{ID: id, Bubble: true, Run: func(c *fw.Ctx) {
+							w := window{k, k}
+							sc := scenario{tag: id, v: v, win: w, b: basesQuick[0], model: func(e *simEnv) *pathModel {
+								m := simplePathWin(v, w, k, true, 9*time.Millisecond) // the target answers after 39 ms
+								m.extra = func(e *simEnv, p *refmatch.Probe) {
+									d := 4 * time.Millisecond
+									if order == "target-first" {
+										d = 90 * time.Millisecond
+									}
+									if b := e.hopReply(p, &hopSpec{addr: routerAddr(v.V6, 1, k)}); b != nil {
+										e.inject(b, "genuine-hop", p, oddUS(d))
+									}
+								}
+								return m
+							}}
+							if out := runScenario(c, sc); out != nil {
+								if out.res.Err == nil && out.res.Run != nil && len(out.res.Run.Hops) == 1 {
+									c.Nontrivial(fmt.Sprintf("single-probe/%s/%s/dest%v", v.Name, order, out.res.Run.Hops[0].IsDest))
+								}
+								out.e.close()
+							}
+						}})
+					}
+				}
+			}
 			// request level: the end-to-end RTT is the RTT of the hop MARKED as the destination. The target's address
 			// answering without proof of arrival (a time-exceeded sent by the target itself for an ICMP or SYN probe, as
 			// from a host that also routes) gives a hop under the target's address that is not the destination: the
